@@ -185,11 +185,13 @@ def execute(ctx, case):
     try:
         with warnings.catch_warnings():
             warnings.simplefilter("ignore")
+            # the limit as a Python int or as a numpy integer (what `for k in np.arange(...)` gives)
+            karg = [k, np.int64(k), np.int32(k)][case["seed"] % 3]
             if cls == "PointsToMST":
-                tf = PointsToMST(furcations=k, exclude_soma=ex, sort=srt)
+                tf = PointsToMST(furcations=karg, exclude_soma=ex, sort=srt)
                 bf = 0.0
             else:
-                tf = PointsToCuntzMST(bf=bf, furcations=k, exclude_soma=ex, sort=srt)
+                tf = PointsToCuntzMST(bf=bf, furcations=karg, exclude_soma=ex, sort=srt)
             t = tf(pts, soma) if soma is not None else tf(pts)
     except Exception as e:
         return ctx.violation("construction-raised", f"{cls}(bf={bf}, furcations={k}, exclude_soma="
